@@ -80,6 +80,7 @@ def run(ctx):
     if ctx.driver:
         scrubtie.run_correspondence(ctx, 3000 if ctx.quick else 40000)
     stmts = pool.statements(ctx, n_gen=300 if ctx.quick else 5000)
+    stmts = pool.scripts() + stmts
     calls = {"simple": None, "normal": m.normal_op, "custom": custom_op}
     combos_per = 3 if ctx.quick else 12
     for st in stmts:
